@@ -349,7 +349,7 @@ func drawCase(t *rapid.T) Case {
 		Outcome:   rapid.SampledFrom([]string{"cacheable", "cacheable", "cacheable", "no-store", "404", "500"}).Draw(t, "outcome"),
 		BodyLen:   rapid.SampledFrom([]int{10, 3000, 70000, 1 << 20, 4 << 20}).Draw(t, "len"),
 		Slow:      -1,
-		Hook:      rapid.SampledFrom([]string{"", "", "", "delete"}).Draw(t, "hook"),
+		Hook:      rapid.SampledFrom([]string{"", "", "delete"}).Draw(t, "hook"),
 	}
 	if c.BodyLen >= 1<<20 && rapid.IntRange(0, 2).Draw(t, "big") != 0 {
 		c.BodyLen = 20000
@@ -379,5 +379,5 @@ func drawCase(t *rapid.T) Case {
 }
 
 func TestCoalescing(t *testing.T) {
-	sub.CheckSalt(t, 1, ev.N(150, 16000), drawCase)
+	sub.CheckSalt(t, 1, ev.N(320, 16000), drawCase)
 }
